@@ -300,6 +300,11 @@ def rule_status_map(ctx, rep):
         def ev3(call):
             if call_name(call) in ("sys.exit", "exit", "os._exit") and call.args and isinstance(call.args[0], ast.Constant) and call.args[0].value == 3:
                 return "EV:exit3"
+            # ArgumentParser.exit(status[, message]) is argparse's own way of leaving: it ends in sys.exit(status)
+            if isinstance(call.func, ast.Attribute) and call.func.attr == "exit" and isinstance(call.func.value, ast.Name) and call.func.value.id == "self":
+                st = call.args[0] if call.args else next((k.value for k in call.keywords if k.arg == "status"), None)
+                if isinstance(st, ast.Constant) and st.value == 3:
+                    return "EV:exit3"
             return None
 
         fa3 = FlowAnalysis(em.node, ev3)
